@@ -163,9 +163,12 @@ fn build_any(api: Api, shape: &Shape, weights: &[u32], hits: &Arc<Vec<AtomicU64>
             Err(WeightSumOverflow(a, b)) => Built::BuildError(a, b),
         },
         Api::Dyn => {
-            let mut d: DynWeighted<Pop> = DynWeighted::new(nth(0), weights[0] as usize);
+            // odd-length lists use the weights scaled by 2^32 (same proportions, same zero pattern):
+            // a usize weight must not be narrowed on the way in
+            let scale: usize = if weights.len() % 2 == 1 && weights.iter().all(|w| *w < 1 << 20) { 1 << 32 } else { 1 };
+            let mut d: DynWeighted<Pop> = DynWeighted::new(nth(0), weights[0] as usize * scale);
             for (i, w) in weights.iter().enumerate().skip(1) {
-                d = d.with_selector(nth(i), *w as usize);
+                d = d.with_selector(nth(i), *w as usize * scale);
             }
             Built::Dyn(d)
         }
